@@ -40,7 +40,7 @@ configurations are only seen by the textual scan; libc/BLAS internals are out of
 import sys, os, re, json, hashlib, subprocess, tempfile, shutil
 from concurrent.futures import ProcessPoolExecutor
 
-VERSION = 'census-8'
+VERSION = 'census-9'
 sys.setrecursionlimit(20000)
 WRITABLE_NM = set('bBdDCsSgG')
 
@@ -283,7 +283,7 @@ def analyse_tu(ast):
 # ----------------------------------------------------------------------------- textual scan
 COND_RE = re.compile(r'^\s*#\s*(if|ifdef|ifndef|elif|else|endif)\b(.*)$')
 STATIC_DECL_RE = re.compile(r'^\s*static\s+(?!inline\b)([^;(){}=]*?)([A-Za-z_]\w*)\s*(\[[^\]]*\])*\s*(=[^;]*)?;')
-COL0_DECL_RE = re.compile(r'^(?:unsigned\s+|signed\s+|long\s+|short\s+)*(?:int|int_t|float|double|char|long|short|unsigned|singlecomplex|doublecomplex|flops_t|size_t)\b\s*\**\s*([A-Za-z_]\w*)\s*(\[[^\]]*\])*\s*(=[^;]*)?;')
+COL0_DECL_RE = re.compile(r'^(?!extern\b|typedef\b|return\b|goto\b|break\b|continue\b|else\b|case\b|default\b|static\b|const\b|register\b)(?:(?:unsigned|signed|long|short|volatile|struct\s+\w+)\s+)*[A-Za-z_]\w*\b[\s\*]+([A-Za-z_]\w*)\s*(\[[^\]]*\])*\s*(=[^;]*)?;')
 
 def strip_comments_keep_lines(text):
     out = []; i = 0; n = len(text)
